@@ -162,9 +162,10 @@ type (
 	}
 	NOld   struct{ X Node }
 	NQuant struct {
-		Forall bool
-		Vars   []QVar
-		Body   Node
+		Forall   bool
+		Vars     []QVar
+		Body     Node
+		Patterns [][]Node // optional triggers: { t1, t2 } { t3 }
 	}
 	NIte struct{ C, A, B Node }
 )
@@ -234,9 +235,21 @@ func (p *parser) expr() Node {
 				break
 			}
 		}
+		var pats [][]Node
+		for p.accept("{") {
+			var pat []Node
+			for {
+				pat = append(pat, p.expr())
+				if !p.accept(",") {
+					break
+				}
+			}
+			p.expect("}")
+			pats = append(pats, pat)
+		}
 		p.expect("::")
 		body := p.expr()
-		return &NQuant{fa, vars, body}
+		return &NQuant{fa, vars, body, pats}
 	}
 	return p.iff()
 }
